@@ -94,6 +94,11 @@ def obligations(ctx, tier):
                 reps.append((name, env_of(p0=V(A, x), p1=V(A, lo), p2=V(A, hi)),
                              (lambda x=x, lo=lo, hi=hi, A=A: lambda W, env: ("val", W.wrap(A, min(max(x, lo), hi))))()))
             out += core.g_row(K, PROP, inh(A, "clamp"), reps)
+            # clamp with an inverted range panics (inherent and through Ord), like the primitives' `assert!(min <= max)`
+            inv = [("inverted", env_of(p0=V(A, 5), p1=V(A, 10), p2=V(A, 3)), expect(("panic", "*"))),
+                   ("inverted_far", env_of(p0=V(A, 0), p1=C(A, "MAX"), p2=C(A, "MIN")), expect(("panic", "*")))]
+            out += core.g_row(K, PROP, inh(A, "clamp"), inv)
+            out += core.g_row(K, PROP, tr(A, "core::cmp::Ord", [], "clamp"), inv + reps)
             # ---- F: trait methods forward to the inherent ones
             out.append(core.f_row(K, PROP, tr(A, "core::cmp::PartialOrd", [T], "partial_cmp"), some(call(inh(A, "cmp"), P(0), P(1)))))
             out.append(core.f_row(K, PROP, tr(A, "core::cmp::Ord", [], "cmp"), call(inh(A, "cmp"), P(0), P(1))))
